@@ -18,6 +18,8 @@ inductive Val where
   deriving DecidableEq, Repr
 
 structure Env where
+  /-- value of `self`: `.inst` in a class invariant, the data itself in an invariant of a constrained primitive -/
+  selfVal : Val
   /-- value of `self.p` -/
   props : Ident → Option Val
   /-- value of any other name -/
@@ -43,7 +45,7 @@ def cmpInt (op : Op) (l r : Int) : Bool :=
 mutual
 /-- Python evaluation with short-circuiting `and` / `or`. -/
 def eval (env : Env) : Expr → Option Val
-  | .name x => if x = idSelf then some .inst else env.names x
+  | .name x => if x = idSelf then some env.selfVal else env.names x
   | .member e p =>
     match eval env e with
     | some .inst => env.props p
@@ -134,9 +136,18 @@ def recognise (pats : List (Ident × Nat)) (inv : Expr) : List (Ident × K) :=
   ++ (recogPat pats inv).map (fun pk => (pk.1, K.pat pk.2))
   ++ (recogSet inv).map (fun px => (px.1, K.inSet px.2))
 
-/-- Assumptions on the environment: properties hold `None` or data; a pattern verification function
+/-- Everything inferred from one invariant of a constrained primitive (`infer_len_constraint_of_self`,
+`infer_patterns_on_self`). -/
+def recogniseSelf (pats : List (Ident × Nat)) (inv : Expr) : List K :=
+  (match recogLenSelf inv with
+    | .ok (some b) => [K.len b]
+    | _ => [])
+  ++ (recogPatSelf pats inv).map K.pat
+
+/-- Assumptions on the environment: `self` is an instance, properties hold `None` or data; a pattern verification function
 returns whether its argument matches its pattern. -/
 structure Env.OK (env : Env) (pats : List (Ident × Nat)) : Prop where
+  selfInst : env.selfVal = .inst
   propsTyped : ∀ p v, env.props p = some v → v = .none ∨ ∃ t, v = .data t
   patFns : ∀ f k t, lookupId f pats = some k → env.fn f [.data t] = some (.bool (env.matchesPat k t))
 
